@@ -5,3 +5,4 @@ pub mod de;
 pub mod interp;
 pub mod interp2;
 pub mod ser;
+pub mod selftest;
